@@ -598,6 +598,33 @@ func reaches(a, b *ssa.BasicBlock) bool {
 	return walk(a)
 }
 
+// LoopBound: the upper bound B of a counting loop `for i := …; i < B; …` or `for i := range B` whose head is h. The classic
+// form tests `i < B` in the head; the range-over-int form (go/ssa "rangeint") tests `0 < B` before the loop and
+// `i+1 < B` at the back edge. ok=false for any other loop.
+func LoopBound(h *ssa.BasicBlock) (bound ssa.Value, ok bool) {
+	if h == nil || len(h.Instrs) == 0 {
+		return nil, false
+	}
+	if t, isIf := h.Instrs[len(h.Instrs)-1].(*ssa.If); isIf {
+		if bo, isBin := t.Cond.(*ssa.BinOp); isBin && bo.Op == token.LSS {
+			return bo.Y, true
+		}
+	}
+	for _, p := range h.Preds {
+		if !h.Dominates(p) || len(p.Instrs) == 0 {
+			continue // not a back edge
+		}
+		t, isIf := p.Instrs[len(p.Instrs)-1].(*ssa.If)
+		if !isIf || len(p.Succs) == 0 || p.Succs[0] != h {
+			continue
+		}
+		if bo, isBin := t.Cond.(*ssa.BinOp); isBin && bo.Op == token.LSS {
+			return bo.Y, true
+		}
+	}
+	return nil, false
+}
+
 // InstrReaches: can control flow from instruction a (after it executed) reach instruction b?
 func InstrReaches(a, b ssa.Instruction) bool {
 	if a.Block() == b.Block() {
